@@ -193,6 +193,16 @@ func (p Proxy) ServeHTTP(w http.ResponseWriter, r *http.Request) (int, error) {
 		return true
 	}
 
+	// The Director, the upstream header rules and the upstream credentials
+	// modify outreq in place. Every attempt after the first one has to start
+	// from the request as it was before the first one, or the base path, the
+	// target query and added headers pile up from attempt to attempt.
+	var (
+		attempts   int
+		origURL    url.URL
+		origHeader http.Header
+	)
+
 	var backendErr error
 	for {
 		// since Select() should give us "up" hosts, keep retrying
@@ -209,6 +219,21 @@ func (p Proxy) ServeHTTP(w http.ResponseWriter, r *http.Request) (int, error) {
 		}
 		if rr, ok := w.(*httpserver.ResponseRecorder); ok && rr.Replacer != nil {
 			rr.Replacer.Set("upstream", host.Name)
+		}
+
+		attempts++
+		if attempts == 1 {
+			origURL = *outreq.URL
+			// a further attempt is only possible with retries or a connection limit
+			if upstream.GetTryDuration() != 0 || host.MaxConns > 0 {
+				origHeader = outreq.Header.Clone()
+			}
+		} else {
+			u := origURL
+			outreq.URL = &u
+			if origHeader != nil {
+				outreq.Header = origHeader.Clone()
+			}
 		}
 
 		proxy := host.ReverseProxy
